@@ -158,19 +158,16 @@ type World struct {
 	T0       time.Time
 	Hasher   fosite.Hasher
 
-	Codes []string // index = id-1
-	ATs   []string
-	RTs   []string
-	Devs  []string
-	UCs   []string
-	Pars  []string
-	IDTs  []string
+	Tok  map[string]map[string]string // kind -> row key (signature) -> the credential string handed out
+	UCs  map[string]string            // device code signature -> user code
+	IDTs []string
 
-	Verifier  map[int]string // per code id: the PKCE verifier used at authorization
-	PkceOf    map[int]string // per code id: method used
-	DevRID    map[int]string
-	codeOwner map[int]string
-	parOwner  []string
+	Verifier   map[int]string // per code id: the PKCE verifier used at authorization
+	PkceOf     map[int]string // per code id: method used
+	DevRID     map[int]string
+	codeOwner  map[int]string
+	mu         sync.Mutex
+	authzCalls int
 }
 
 // plainHasher stores client secrets as "plain:<secret>"; used in bulk history runs where
@@ -207,7 +204,7 @@ func newClient(id string, public bool) *fosite.DefaultClient {
 // the synctest bubble of the history (the provider reads time.Now()).
 func NewWorld(cfg Cfg) *World {
 	rk, _, _ := Keys()
-	w := &World{Cfg: cfg, T0: time.Now(), Verifier: map[int]string{}, PkceOf: map[int]string{}, DevRID: map[int]string{}, codeOwner: map[int]string{}}
+	w := &World{Cfg: cfg, T0: time.Now(), Tok: map[string]map[string]string{"code": {}, "at": {}, "rt": {}, "dev": {}, "par": {}}, UCs: map[string]string{}, Verifier: map[int]string{}, PkceOf: map[int]string{}, DevRID: map[int]string{}, codeOwner: map[int]string{}}
 	w.Mem = storage.NewMemoryStore()
 	for _, id := range []string{"A", "B", "P"} {
 		w.Mem.Clients[id] = newClient(id, id == "P")
